@@ -102,6 +102,7 @@ func c15Run(t *testing.T, sc c15Scenario, c *vsched.Chooser) (out vsched.Outcome
 		s.TimeStep, s.MaxIdleSteps = time.Second, 14
 		var mu sync.Mutex
 		var results []c15Result
+		batchBad := ""
 		started := map[int]time.Time{}
 		timeouts := map[int]time.Duration{}
 		askT := func(who string, to *PID, id int, timeout time.Duration) {
@@ -118,6 +119,29 @@ func c15Run(t *testing.T, sc c15Scenario, c *vsched.Chooser) (out vsched.Outcome
 				rep, err = Ask(ctx, to, &c15Req{id: id}, timeout)
 			case "sendsync":
 				rep, err = sys.NoSender().SendSync(ctx, to.Name(), &c15Req{id: id}, timeout)
+			case "batchask":
+				// two requests in one BatchAsk: the replies must come back in request order; the
+				// pair is folded into one result whose id is the first request's id
+				var ch chan any
+				ch, err = sys.NoSender().BatchAsk(ctx, to, []any{&c15Req{id: id}, &c15Req{id: id + 40}}, timeout)
+				if err == nil {
+					var got []int
+					for v := range ch {
+						if r, ok := v.(*c15Rep); ok {
+							got = append(got, r.id)
+						} else {
+							got = append(got, -1)
+						}
+					}
+					if len(got) == 2 && got[0] == id && got[1] == id+40 {
+						rep = &c15Rep{id: id}
+					} else {
+						rep = &c15Rep{id: -1000 - id}
+						mu.Lock()
+						batchBad = fmt.Sprintf("BatchAsk(%d,%d) returned replies %v", id, id+40, got)
+						mu.Unlock()
+					}
+				}
 			}
 			mu.Lock()
 			results = append(results, c15Result{who, id, rep, err})
@@ -193,7 +217,7 @@ func c15Run(t *testing.T, sc c15Scenario, c *vsched.Chooser) (out vsched.Outcome
 				}
 			}
 		}
-		if !fired && sc.mode != "stale" {
+		if !fired && sc.mode != "stale" && sc.api != "batchask" {
 			// no timer fired: the responder answered in time, so ask1 must have received its reply
 			for _, x := range res {
 				if x.who == "ask1" && x.err != nil {
@@ -204,7 +228,9 @@ func c15Run(t *testing.T, sc c15Scenario, c *vsched.Chooser) (out vsched.Outcome
 		// an in-time reply is never lost: the responder completed Response before the asker's deadline
 		rActor.mu.Lock()
 		for _, x := range res {
-			if at, ok := rActor.done[x.id]; ok && x.err != nil {
+			// (not for BatchAsk: its error may stem from the second request of the batch, whose own
+			// start time the harness cannot see)
+			if at, ok := rActor.done[x.id]; ok && x.err != nil && sc.api != "batchask" {
 				mu.Lock()
 				deadline := started[x.id].Add(timeouts[x.id])
 				mu.Unlock()
@@ -214,6 +240,9 @@ func c15Run(t *testing.T, sc c15Scenario, c *vsched.Chooser) (out vsched.Outcome
 			}
 		}
 		rActor.mu.Unlock()
+		if batchBad != "" {
+			v = append(v, vsched.Fail("batchask-replies-not-own-or-out-of-order/"+sc.api, "%s", batchBad))
+		}
 		if len(res) != wantResults && out.Invalid == "" {
 			v = append(v, vsched.Fail("ask-never-returned/"+sc.api, "only %d of the asks returned: %s; threads: %s", len(res), c15Show(res), s.Describe()))
 		}
@@ -244,8 +273,11 @@ func TestVerifC15(t *testing.T) {
 	}
 	vsched.Rep().Assumption("sequentially consistent interleavings at shimmed atomics and at channel statements of the Ask/Response path; timers fire only as explicit events or when nothing else can run; contextPoolSize=2 (overridden) so response channels and contexts are reused immediately")
 	var all []vsched.Scenario
-	for _, api := range []string{"pid", "pkg", "sendsync"} {
+	for _, api := range []string{"pid", "pkg", "sendsync", "batchask"} {
 		for _, mode := range []string{"seq", "par", "stale", "tells"} {
+			if api == "batchask" && (mode == "stale" || mode == "tells") {
+				continue // BatchAsk is a loop over PID.Ask: the two cheap modes are enough on top of the pid scenarios
+			}
 			sc := c15Scenario{name: api + "/" + mode, api: api, mode: mode, bound: vsched.Pick(2, 3)}
 			all = append(all, vsched.Scenario{
 				Cfg: vsched.Config{Scenario: sc.name, Bound: sc.bound, Params: map[string]any{"api": api, "mode": mode}},
